@@ -39,8 +39,28 @@ Check(r) ==
                    /\ Seq3(TVraw(v)) = [i \in DOMAIN r.three |-> TVraw(r.three[i])])
           \/ PrintT(<<"DRIFT", l, r.id, "order">>))
 
+\* the first n items of the transcribed odometers
+RECURSIVE Pre2(_, _, _), Pre3(_, _, _)
+Pre2(st, n, acc) == IF n = 0 THEN acc ELSE LET r == Step2(st) IN IF r[2] = None THEN acc ELSE Pre2(r[1], n - 1, Append(acc, r[2]))
+Pre3(st, n, acc) == IF n = 0 THEN acc ELSE LET r == Step3(st) IN IF r[2] = None THEN acc ELSE Pre3(r[1], n - 1, Append(acc, r[2]))
+
+\* long vectors (k up to 130 undecided positions): only the first r.take items are drawn; 2^k and 3^k exceed r.take
+CheckLong(r) ==
+  LET v == r.vec IN
+  /\ Report(r.st = "ok", r.id, "status-long-vector")
+  /\ r.st = "ok" =>
+     /\ Report(Len(r.two) = r.take /\ Len(r.three) = r.take, r.id, "ends-early-on-long-vector")
+     /\ Report(\A i \in DOMAIN r.two : RefinesRaw(v, r.two[i], FALSE), r.id, "two-not-a-completion")
+     /\ Report(Cardinality(RangeOf(r.two)) = Len(r.two), r.id, "two-duplicate")
+     /\ Report(\A i \in DOMAIN r.three : RefinesRaw(v, r.three[i], TRUE), r.id, "three-not-a-refinement")
+     /\ Report(Cardinality(RangeOf(r.three)) = Len(r.three), r.id, "three-duplicate")
+     /\ Report(Len(r.three) >= 1 /\ r.three[1] = v, r.id, "three-first")
+     /\ ((Pre2(Init2(TVraw(v)), r.take, <<>>) = [i \in DOMAIN r.two |-> TVraw(r.two[i])]
+          /\ Pre3(Init3(TVraw(v)), r.take, <<>>) = [i \in DOMAIN r.three |-> TVraw(r.three[i])])
+          \/ PrintT(<<"DRIFT", l, r.id, "order-long">>))
+
 Init == l = 1
-Next == /\ l <= Len(Rec) /\ Check(Rec[l]) \in BOOLEAN /\ l' = l + 1
+Next == /\ l <= Len(Rec) /\ (IF Rec[l].kind = "iterlong" THEN CheckLong(Rec[l]) ELSE Check(Rec[l])) \in BOOLEAN /\ l' = l + 1
 Spec == Init /\ [][Next]_l
 Consumed == (TLCGet("stats").diameter - 1 = Len(Rec))
               \/ PrintT(<<"NOTCONSUMED", TLCGet("stats").diameter, Len(Rec)>>)
